@@ -29,7 +29,7 @@ def parseSpec (s : Sexp) : Option VSpec := do
   if let some t := s.field? "t" then
     match t.args with
     | [.atom ty] => some { names, ty := some (nm ty), hasVals := true, exprTy := none, vals }
-    | [.atom ty, .atom "q"] => some { names, ty := some (nm ty), hasVals := true, exprTy := none, vals, tyIdent := false }
+    | [.atom ty, .atom "q"] => some { names, ty := some (nm ty), hasVals := true, exprTy := none, vals }   -- `(T)` / `pkg.T`
     | _ => none
   else if (s.field? "c").isSome then
     some { names, ty := none, hasVals := false, exprTy := none, vals }
@@ -95,7 +95,7 @@ def staleVariants (p : Sexp) : List (String × (Name → Option Int)) :=
 /-! ### C04 -/
 
 def c04Model (i : Input) (win : List Int) (stale : List (String × (Name → Option Int))) : List (String × String) :=
-  match gen i.kind i.T i.allBlocks with
+  match gen i.kind i.T i.blocks with
   | .skipped => [("exit", "0"), ("file", "none")]
   | .file cs =>
     if !compiles false i.T i.decl cs then [("exit", "0"), ("compile", "error")]
@@ -170,7 +170,7 @@ structure C12Probes where
   encs : List Int
 
 def c12Model (i : Input) (q : C12Probes) : List (String × String) :=
-  match gen i.kind i.T i.allBlocks with
+  match gen i.kind i.T i.blocks with
   | .skipped => [("exit", "0"), ("file", "none")]
   | .file cs =>
     if !compiles false i.T i.decl cs then [("exit", "0"), ("compile", "error")]
@@ -245,7 +245,7 @@ def c12tCase (id : String) (payload : List Sexp) : List String :=
     let ints := probesOf p
     let pr := ints.map (fun (_, kV, v) => (kV, v))
     let reg := if !WF i || !probesOK pr then "Out" else "WF"
-    match gen i.kind i.T i.allBlocks with
+    match gen i.kind i.T i.blocks with
     | .file cs =>
       both id (ints.map (fun (n, kV, v) => (s!"isenum:{n}:{v}", toString (isEnum i.kind kV (valuesT cs) v))))
         (ints.map (fun (n, _, v) => (s!"isenum:{n}:{v}", toString (specIsEnum i.decl v)))) reg
@@ -260,8 +260,8 @@ def c12vCase (id : String) (payload : List Sexp) : List String :=
   | some i =>
     let target := (intsOf p "target").headD 0
     let strs := ((p.field? "strs").map (·.args)).getD [] |>.filterMap (fun a => a.asAtom?.map nm)
-    let reg := if !WF i then "Out" else if F_sql_value_string true then "F_sql_value_string" else "WF"
-    match gen i.kind i.T i.allBlocks with
+    let reg := if !WF i then "Out" else "WF"
+    match gen i.kind i.T i.blocks with
     | .file cs =>
       let vm := valueMap i.T cs
       both id
@@ -303,7 +303,7 @@ def c14Case (id : String) (payload : List Sexp) : List String :=
     let hi := ((intsOf p "hi").headD 0).toNat
     let negs := intsOf p "neg"
     let hd := [("exit", "0"), ("compile", "ok")]
-    match gen i.kind i.T i.allBlocks with
+    match gen i.kind i.T i.blocks with
     | .skipped => both id [("exit", "0"), ("file", "none")] hd (regionBit i)
     | .file cs =>
       -- the copy under observation has the defined table substituted, so it compiles like a plain enum
@@ -323,7 +323,7 @@ def c14rawCase (id : String) (payload : List Sexp) : List String :=
   | none => err id "bad-enum-case"
   | some i =>
     let reg := if !WF i then "Out" else if F_undefined_map true then "F_undefined_map" else "WF"
-    match gen i.kind i.T i.allBlocks with
+    match gen i.kind i.T i.blocks with
     | .file cs => both id [("compile", if compiles true i.T i.decl cs then "ok" else "error")] [("compile", "ok")] reg
     | _ => both id [] [] "Out"
 
